@@ -1157,3 +1157,20 @@ package state
 //@ ensures[create-adds-delta] change.Before == nil ==> forall k string :: usageDeltas[k] == old(usageDeltas[k]) + ite(k == billableServiceInstancesTableName(), billable(svcOf(change.After)) * delta, 0)
 //@ ensures[delete-adds-delta] change.After == nil ==> forall k string :: usageDeltas[k] == old(usageDeltas[k]) + ite(k == billableServiceInstancesTableName(), billable(svcOf(change.Before)) * delta, 0)
 //@ modifies map:usageDeltas
+
+// The usage table after a commit: every counter named in the delta map moved by its delta (never below zero) and
+// carries the commit index; no other counter is touched. Counter names are lower-case (table names, "connect-<kind>",
+// "config-entries-<kind>"), which is what makes distinct map keys distinct rows of the lower-casing id index.
+//@ pure usageBefore(k string) int = ite(old(T_usage(k)) == nil, 0, old(T_usage(k).Count))
+//@ pure clampCount(n int) int = ite(n < 0, 0, n)
+
+//@ func writeUsageDeltas
+//@ props C07
+//@ results err
+//@ requires usageDeltas != nil
+//@ requires[counter-names-lower-case] forall k string :: has(usageDeltas, k) ==> strLower(k) == k
+//@ ensures[counters-moved-by-their-deltas] err == nil ==> forall k string :: has(usageDeltas, k) ==> T_usage(k) != nil && T_usage(k).Count == clampCount(usageBefore(k) + usageDeltas[k]) && T_usage(k).Index == idx
+//@ ensures[other-counters-untouched] forall k string :: !has(usageDeltas, strLower(k)) ==> T_usage(k) == old(T_usage(k))
+//@ modifies T.usage
+//@ loop 1 invariant[visited-moved] forall k string :: range1_visited[k] && has(usageDeltas, k) ==> T_usage(k) != nil && T_usage(k).Count == clampCount(usageBefore(k) + usageDeltas[k]) && T_usage(k).Index == idx
+//@ loop 1 invariant[unvisited-untouched] forall k string :: !(range1_visited[strLower(k)] && has(usageDeltas, strLower(k))) ==> T_usage(k) == old(T_usage(k))
